@@ -203,6 +203,8 @@ def param_spec(draw, name, depth=2, safe_const=True, ro_variants=False):
     else:
         p['write'] = None
     p['read'] = draw(st.sampled_from([None, 'cached']))
+    if ro_variants and flavour in ('rw', 'ro', 'custom') and 'cfgT' not in p and draw(st.integers(0, 7)) == 0:
+        p['cfg_constant'] = draw(specs.valid_value(T, True))     # the configuration turns the parameter into a constant
     if ro_variants and flavour in ('rw', 'hidden', 'custom', 'ro') and draw(st.integers(0, 5)) == 0:
         # the configuration hides, shows or renames the parameter
         p['cfg_export'] = draw(st.sampled_from([True, f'_cfg{name}'] if flavour == 'hidden' else [False, False, f'_cfg{name}']))
@@ -250,6 +252,8 @@ def cfg_overrides(spec):
             res.setdefault(p['name'], {})['readonly'] = True
         if 'cfg_export' in p:
             res.setdefault(p['name'], {})['export'] = p['cfg_export']
+        if 'cfg_constant' in p:
+            res.setdefault(p['name'], {})['constant'] = p['cfg_constant']
         C = p.get('cfgT')
         if C:
             ent = res.setdefault(p['name'], {})
@@ -269,6 +273,8 @@ def effective_spec(spec):
         q = dict(p, T=effective_T(p))
         if 'cfg_export' in p:
             q['export'] = p['cfg_export']
+        if 'cfg_constant' in p:     # made a constant by the configuration: the class default does not count any more
+            q.update(constant=True, readonly=True, default=p['cfg_constant'])
         res['params'].append(q)
     return res
 
